@@ -62,7 +62,9 @@ Definition p_wfault (a : args) : list (list Z) :=
           then one entry per k: [outcome 0 = clean end / 1 = Err] [batches decoded] [rows decoded]
           [hash of the rows decoded]
    class: 0 parquet (footer), 1 IPC file (footer), 2 IPC stream (StreamReader), 3 Avro OCF (block framing model),
-          4 JSON lines (row prefix), 6 IPC stream through the push-based StreamDecoder *)
+          4 JSON lines (row prefix), 6 IPC stream through the push-based StreamDecoder,
+          7 parquet data (first k bytes) read with the footer metadata of the INTACT file (metadata cache):
+            the decoded rows are a prefix and a clean end is allowed only with all rows *)
 Definition tail_code (t : tail) : Z := match t with End => 0%Z | Err => 1%Z end.
 
 Definition trunc_one (cls : nat) (file H cum aux : list Z) (k : nat) (outcome nb nr h : Z) : bool :=
@@ -87,6 +89,7 @@ Definition trunc_one (cls : nat) (file H cum aux : list Z) (k : nat) (outcome nb
                | None => (outcome =? 1)%Z && (nr =? 0)%Z
                | Some (rows, t) => (nr =? rows)%Z && (outcome =? tail_code t)%Z
                end
+    | 7%nat => (outcome =? 1)%Z || (nr =? N)%Z    (* data cut short under the intact file's footer: Err, never a shorter clean result *)
     | 6%nat => let '(n, t) := push_read pre in
                (nb =? Z.of_nat n)%Z && (outcome =? tail_code t)%Z && (nr =? nth n cum (-1)%Z)%Z
     | _ => true
